@@ -1,5 +1,6 @@
 import PK.Properties.C02
 import PK.Properties.C02Rules
+import PK.Properties.C02Capped
 #print axioms PK.maxOrNone_ge
 #print axioms PK.C02_eligible
 #print axioms PK.C02_winners_best
@@ -9,3 +10,8 @@ import PK.Properties.C02Rules
 #print axioms PK.pots_sum
 #print axioms PK.pushChips_ledger
 #print axioms PK.C02_best_five_wins
+#print axioms PK.popSame_elig
+#print axioms PK.fold_prefix
+#print axioms PK.layers_prefix
+#print axioms PK.C02_capped
+#print axioms PK.C02_push_eligible_only
